@@ -336,6 +336,17 @@ class C19(Prop):
                         pkt[fld] = val
                         out.append({'clients': 1, 'fw': {}, 'cuts': one, 'waves': [{'sends': [], 'forged': [
                             {'victim': victim, 'when': 'before', 'chase': True, 'raw': json.dumps(pkt)}]}]})
+        # a process with two connections: B calls A0 while A0 also holds a connection to another (hostile) server
+        for kind in ('plain', 'slow', 'raise'):
+            for when in ('before', 'after'):
+                out.append({'clients': 1, 'fw': {}, 'cuts': one, 'waves': [{
+                    'sends': [ev('B', 'server', kind=kind), ev('A0', 'client', kind=kind)],
+                    'forged': [{'victim': 'A0', 'when': when, 'chase': True, 'raw': json.dumps(
+                        {'id': 0, 'name': 'job', 'args': [-7, 'x'], 'kwargs': {}, 'success': False, 'failure': False, 'notify': False,
+                         'channels': ['c1'], 'meta': {}})}]}]})
+                out.append({'clients': 1, 'fw': {}, 'cuts': one, 'waves': [{
+                    'sends': [ev('B', 'server', kind=kind)],
+                    'forged': [{'victim': 'A0', 'when': when, 'chase': False, 'raw': '{"junk": 1}'}]}]})
         if tier == 'thorough' and not os.environ.get('C19_NO_FUZZ'):
             out += self.campaign()
         return out
@@ -577,6 +588,11 @@ class C19(Prop):
             return bad('loop-dead', 'local probe event no longer dispatched in %r' % dead)
         if not complete:
             return bad('no-quiescence', 'network did not become quiet within the round bound')
+
+        stray = rig.unrequested_answers()
+        if stray:
+            return bad('result-to-wrong-connection', 'a result with id %r was written on %s although the peer of that connection never sent '
+                       'a call with this id (results of calls received over another connection?)' % (stray[0][1], stray[0][0]))
 
         inv = {}
         for proc, tag, uid, name, args, kwargs, channels, snap in rig.invocations:
